@@ -2567,6 +2567,13 @@ fn core_word_str_to_num(xs: &mut State) -> Xresult {
     let val = xs.pop_data()?;
     let base = xs.parse_fmt_flags(&val).unwrap_or_default().base() as u32;
     let s = val.to_xstr()?;
+    if !(2..=36).contains(&base) {
+        // a formatting tag made by hand may name any base
+        return Err(Xerr::ParseError {
+            msg: crate::lex::PARSE_INT_ERRMSG,
+            substr: s.substr(..),
+        });
+    }
     if s.find('.').is_some() {
         let r: Xreal = s.parse().map_err(|_| Xerr::ParseError {
             msg: crate::lex::PARSE_FLOAT_ERRMSG,
